@@ -96,11 +96,18 @@ Definition holds (c : case) : bool := forallb holds1 c.
        the outcome breaks the property (before the repair: the unfiltered identity was put into
        the assertion, best_effort=False ignored)
    2 = C10-F2 (47cc754e): entity categories configured but the Policy has no metadata store
-       (before the repair: the filter was skipped) *)
+       (before the repair: the filter was skipped)
+   3 = C10-F5 (OPEN): an ONLY_REQUIRED entity category is configured and a REQUIRED RequestedAttribute's
+       FriendlyName, read before Name + NameFormat, names another attribute (Policy.get_entity_categories reads the
+       label first).  Looked at LAST, so that it hides no regression of the repaired classes: a call whose outcome
+       breaks the property BECAUSE of C10-F5 is in neither (with the categories in force Policy.restrict never raises
+       MissingValue; without a store the requester is in no category and only the always-released keys, which
+       ignore the required attributes, grant anything). *)
 Definition cls1 (c : case1) : nat :=
   let x := c_in c in
   if class1 (rm (c_mt c)) ectab x then 1
   else if class2 ectab x then 2
+  else if class3 ectab x then 3
   else 0.
 (* the class of the first call whose output breaks the property *)
 Definition cls (c : case) : nat :=
